@@ -7,7 +7,7 @@ from . import compositelib as L
 OCAML = ["composite"]
 GO = ["composite"]
 PROP = "props/C09.v"
-PROOFS = ["proofs/CompositeC09.v"] + L.PROOFS_COMMON
+PROOFS = ["proofs/CompositeC09.v", "proofs/CompositeProgress.v", "proofs/CompositeExact.v"] + L.PROOFS_COMMON
 
 
 def run(run):
@@ -16,8 +16,8 @@ def run(run):
         return
     quick = run.tier == "quick"
     fams = [("corpus:corpus/C09/stop-between-setconfig-and-boot.jsonl", 0, 0), ("f8", 4, run.seed), ("stale", 4, run.seed),
-            ("c09", 450 if quick else 7000, run.seed), ("boot", 80 if quick else 800, run.seed + 1),
-            ("c11", 100 if quick else 1200, run.seed + 2)]
+            ("c09", 1500 if quick else 20000, run.seed), ("boot", 300 if quick else 3000, run.seed + 1),
+            ("c11", 400 if quick else 5000, run.seed + 2)]
     results, cover, summary, scripts, traces = L.run_families(run, fams)
     cnt = L.classify(run, "C09", results, scripts, traces)
     st = [r for r in results if r["family"] == "stale"]
